@@ -36,16 +36,20 @@ def rule_tv(ctx, rule="R1"):
         ctx.count_paths(pr, br)
         programs += 1
         prods |= set(m["prods"])
-        if not (len(pm) == 1 and len(pr) == 1 and pm[0].outcome == "return" and pr[0].outcome == "return"):
-            ctx.ob(rule, "pair/" + m["name"], False, "expansion is not a straight-line builder chain: %s" % m["macro"],
-                   bm["span"], what="not-a-builder-chain")
+        pairs = tv.pair_paths(pm, pr)
+        if pairs is None:
+            ctx.ob(rule, "pair/" + m["name"], False, "macro expansion and builder chain do not take the same paths through the "
+                   "builder code: %s" % m["macro"], bm["span"], what="not-a-builder-chain")
             continue
-        rm, rr = tv.animator_record(pm[0].ret), tv.animator_record(pr[0].ret)
         diffs = {}
-        cm = {k: v for k, v in rm.items() if k != "order"}
-        cr = {k: v for k, v in rr.items() if k != "order"}
-        # same state listed twice: the later `on` wins on both sides (dict semantics); order of distinct states is irrelevant
-        ok = tv.same(cm, cr, diffs, "animator")
+        ok = True
+        rm = rr = None
+        for (xm, xr) in pairs:
+            rm, rr = tv.animator_record(xm.ret), tv.animator_record(xr.ret)
+            cm = {k: v for k, v in rm.items() if k != "order"}
+            cr = {k: v for k, v in rr.items() if k != "order"}
+            # same state listed twice: the later `on` wins on both sides (dict semantics); order of distinct states is irrelevant
+            ok = tv.same(cm, cr, diffs, "animator") and ok
         ctx.ob(rule, "pair/%s" % m["name"], ok,
                "macro: %s | documented reading: %s | differences: %s" % (m["macro"], m["ref"], diffs.get("diff", [])[:4]),
                bm["span"], what="macro-differs-from-builder")
